@@ -136,7 +136,7 @@ func (c11Engine) NewScenario() any        { return &c11Scn{} }
 
 // ---- generation ----
 
-var c11Lines = []string{"a 1", "bb", "lit x", "", "c d e", "lit", "7", "x,y z"}
+var c11Lines = []string{"a 1", "bb", "lit x", "", "c d e", "lit", "7", "x,y z", "a:1 b", "p:q:r"}
 
 func c11GenData(r *core.Rand) []byte {
 	n := r.Intn(6)
@@ -161,7 +161,7 @@ func c11GenOpsL(r *core.Rand, ctx string, depth int, allowCmd, inLoop bool) []c1
 	}
 	var ops []c11Op
 	for i := 0; i < n; i++ {
-		kinds := []string{"trace", "trace", "getline", "getline-var", "getline-file", "getline-var-file", "exit", "exit-n", "assign", "if-nr", "if-v", "loop", "call", "trace", "dowhile", "forever", "set-field", "set-nf", "close", "drain"}
+		kinds := []string{"trace", "trace", "getline", "getline-var", "getline-file", "getline-var-file", "exit", "exit-n", "assign", "if-nr", "if-v", "loop", "call", "trace", "dowhile", "forever", "set-field", "set-nf", "close", "drain", "set-fs"}
 		if inLoop {
 			kinds = append(kinds, "break-if-v", "break-if-v")
 		}
@@ -195,6 +195,8 @@ func c11GenOpsL(r *core.Rand, ctx string, depth int, allowCmd, inLoop bool) []c1
 			op.K = r.Range(1, 5)
 		case "set-nf":
 			op.K = r.Range(0, 5)
+		case "set-fs":
+			op.K = r.Intn(2)
 		case "close":
 			op.Name = core.Pick(r, []string{"g1", "g2", "f1", "gmissing"})
 		case "if-nr", "if-v", "loop", "call", "dowhile", "forever":
@@ -424,6 +426,8 @@ func (g *c11Gen) ops(ops []c11Op) string {
 			fmt.Fprintf(&sb, "$%d = \"F\"; ", op.K)
 		case "set-nf":
 			fmt.Fprintf(&sb, "NF = %d; ", op.K)
+		case "set-fs":
+			fmt.Fprintf(&sb, "FS = \"%s\"; ", []string{" ", ":"}[op.K%2])
 		case "close":
 			fmt.Fprintf(&sb, "close(\"%s\"); trace(\"cl%d\", 0, %s); ", op.Name, id, c11TraceArgs)
 		case "if-nr":
@@ -531,6 +535,7 @@ type c11Model struct {
 	rec      string
 	nf       int
 	fields   []string // the current record's fields (explicit once a field or NF was assigned)
+	fs       string   // the value of FS: "" or " " (blanks) or ":"; a record is split with the FS in force when it was read
 	v, gv    string
 	status   int
 	trace    []c11Trace
@@ -572,6 +577,11 @@ func (m *c11Model) setRec(rec string) {
 		m.fields = nil
 		if rec != "" {
 			m.fields = strings.Split(rec, ",")
+		}
+	} else if m.fs == ":" {
+		m.fields = nil
+		if rec != "" {
+			m.fields = strings.Split(rec, ":")
 		}
 	} else {
 		m.fields = strings.Fields(rec)
@@ -788,6 +798,8 @@ func (m *c11Model) run(ops []c11Op) c11Signal {
 			}
 			m.fields = f[:op.K]
 			m.rebuild()
+		case "set-fs":
+			m.fs = []string{" ", ":"}[op.K%2] // takes effect with the next record that is read into $0
 		case "close":
 			delete(m.streams, op.Name)
 			m.emit(fmt.Sprintf("cl%d", id), 0)
